@@ -178,15 +178,22 @@ func (rc *BrokerRowProtoConverter) validateMetric(m *protoMetricsV1.Metric) erro
 		len(m.CompoundField.Values) <= 2 {
 		return ErrBadMetricPBFormat
 	}
-	// ensure compound field value > 0
-	if (m.CompoundField.Max < 0) ||
-		m.CompoundField.Min < 0 ||
-		m.CompoundField.Sum < 0 ||
-		m.CompoundField.Count < 0 {
+	// ensure compound field value >= 0, NaN is rejected too(any comparison with NaN is false)
+	if !(m.CompoundField.Max >= 0 &&
+		m.CompoundField.Min >= 0 &&
+		m.CompoundField.Sum >= 0 &&
+		m.CompoundField.Count >= 0) {
 		return ErrBadMetricPBFormat
 	}
 
 	for idx := 0; idx < len(m.CompoundField.Values); idx++ {
+		// ensure value is a number
+		if math.IsNaN(m.CompoundField.Values[idx]) {
+			return ErrMetricNanField
+		}
+		if math.IsInf(m.CompoundField.Values[idx], 0) {
+			return ErrMetricInfField
+		}
 		// ensure value > 0
 		if m.CompoundField.Values[idx] < 0 || m.CompoundField.ExplicitBounds[idx] < 0 {
 			return ErrBadMetricPBFormat
